@@ -241,6 +241,34 @@ def proto_events(ops, tr):
     return lines
 
 
+def proto_events_bracketed(ops, tr):
+    """the same script with operation brackets for Hist.hitem (driver `crash`): "(" listener calls of one API call ")",
+    then the P / K line of that call if it ends with a savepoint / checkpoint"""
+    lines = []
+    starts = {i: n for (_, i, n) in tr["marks"]}
+    order = sorted(starts)
+    for idx, i in enumerate(order):
+        a = starts[i]
+        b = starts[order[idx + 1]] if idx + 1 < len(order) else len(tr["lsn"])
+        lines.append("(")
+        for _, f in tr["lsn"][a:b]:
+            lines.append(" ".join(f))
+        lines.append(")")
+        o = tr["ops"].get(i, {})
+        if o.get("rc") != "0":
+            continue
+        if ops[i][0] == "s" or ops[i][0] == "n":
+            lines.append("P 1")
+        elif ops[i][0] in "cq":
+            lines.append("K")
+    return lines
+
+
+def model_index(fx, k, with_records):
+    """position in Proto.run's effect list that corresponds to "the first k effects of the real run happened" """
+    return len(norm_real_fx(fx[:k], with_records))
+
+
 def norm_real_fx(fx, with_records):
     out = []
     for k, c, off, ln in fx:
